@@ -269,6 +269,85 @@ theorem C05_refines_deleteSnap (st : St) (n : String) :
   · cases h
   · injection h with h; subst h; exact ⟨rfl, rfl, rfl⟩
 
+/-! the link clause of the obligation is what the enqueueing code's predecessor query is checked for -/
+
+theorem keyOf_of_msg {db : Db} {d : Delivery} {m : Msg} {k : String} (hm : db.msgById d.msgId = some m)
+    (hk : m.orderKey = some k) (hne : k ≠ "") : Ord.keyOf db d = some k := by
+  unfold Ord.keyOf
+  rw [hm]; simp only [hk]
+  have : (k == "") = false := by simpa using hne
+  simp [this]
+
+theorem keyOf_eq_some_iff {db : Db} {e : Delivery} {k : String} (hne : k ≠ "") :
+    Ord.keyOf db e = some k ↔ ∃ dm, db.msgById e.msgId = some dm ∧ dm.orderKey = some k := by
+  unfold Ord.keyOf
+  cases hm : db.msgById e.msgId with
+  | none => simp
+  | some dm =>
+    simp only [Option.some.injEq, exists_eq_left']
+    cases hok : dm.orderKey with
+    | none => simp
+    | some k' =>
+      simp only [Option.some.injEq]
+      by_cases hk' : k' = ""
+      · subst hk'
+        simp only [beq_self_eq_true, if_true]
+        constructor
+        · intro h; cases h
+        · intro h; exact absurd h.symm hne
+      · have : (k' == "") = false := by simpa using hk'
+        simp [this]
+
+/-- for a keyed message on an ordered subscription the candidates of the obligation are the
+    candidates of the predecessor query -/
+theorem cands_eq_predCands (db : Db) (s : Sub) (m : Msg) (now : Time) (f : Fwd) (k : String)
+    (hmsg : db.msgById m.id = some m) (hk : m.orderKey = some k) (hne : k ≠ "") :
+    Ord.cands db db.dels (mkDelivery s m now f) = predCands db s m now := by
+  have hkr : Ord.keyOf db (mkDelivery s m now f) = some k := keyOf_of_msg (d := mkDelivery s m now f) hmsg hk hne
+  unfold Ord.cands predCands
+  apply List.filter_congr
+  intro e _
+  rw [hkr]
+  simp only [mkDelivery]
+  congr 1
+  cases hm : db.msgById e.msgId with
+  | none =>
+    have : Ord.keyOf db e = none := by unfold Ord.keyOf; rw [hm]
+    rw [this]; rfl
+  | some dm =>
+    simp only
+    rw [hk]
+    by_cases hdk : dm.orderKey = some k
+    · have := (keyOf_eq_some_iff (db := db) (e := e) hne).mpr ⟨dm, hm, hdk⟩
+      rw [this, hdk]
+    · have hne2 : Ord.keyOf db e ≠ some k := by
+        intro h
+        obtain ⟨dm', hm', hdk'⟩ := (keyOf_eq_some_iff (db := db) (e := e) hne).mp h
+        rw [hm] at hm'; injection hm' with hm'; subst hm'
+        exact hdk hdk'
+      have h1 : (Ord.keyOf db e == some k) = false := by simpa using hne2
+      have h2 : (dm.orderKey == some k) = false := by simpa using hdk
+      rw [h1, h2]
+
+/-- **the enqueueing check implies the obligation's link clause**: a row the model's publish / forward
+    accepts (`predChoiceOk`) for a keyed message on an ordered subscription is linked as `Ord.rowNewOk`
+    demands -/
+theorem C05_link_clause_of_enqueue_check (db : Db) (s : Sub) (m : Msg) (now : Time) (f : Fwd) (k : String)
+    (hmsg : db.msgById m.id = some m) (hk : m.orderKey = some k) (hne : k ≠ "") (hord : s.ordered = true)
+    (hok : predChoiceOk db s m now f.nb = true) :
+    (match (mkDelivery s m now f).notBefore with
+     | none => (Ord.cands db db.dels (mkDelivery s m now f)).isEmpty
+     | some p => (Ord.cands db db.dels (mkDelivery s m now f)).any fun q =>
+        q.id == p && (Ord.cands db db.dels (mkDelivery s m now f)).all fun e => decide (e.publishedAt ≤ q.publishedAt)) = true := by
+  rw [cands_eq_predCands db s m now f k hmsg hk hne]
+  rw [predChoiceOk_keyed db s m now f.nb hord k hk hne] at hok
+  show (match f.nb with
+     | none => (predCands db s m now).isEmpty
+     | some p => (predCands db s m now).any fun q => q.id == p && (predCands db s m now).all fun e => decide (e.publishedAt ≤ q.publishedAt)) = true
+  cases hnb : f.nb with
+  | none => rw [hnb] at hok; exact hok
+  | some p => rw [hnb] at hok; exact hok
+
 /-- a deadline modification (positive, zero or negative) only moves attempt times -/
 theorem C05_refines_delay (st : St) (ids : List Id) (Δ : Int) :
     Ord.stepOk true st.db st.now (step st (.delay ids Δ)).1.db (step st (.delay ids Δ)).1.now = true := by
